@@ -1,9 +1,9 @@
 /-
   C01 / C02 — the round trip, composed from T1 (Props/Total.lean) and T2 (Props/Unstruct.lean).
 
-  `roundtrip`: in an environment whose dispatch programs, class table (T1) and unstructure table (T2)
-  pass their kernel-evaluated checks, for every annotation in the checked universe and every JSON
-  value with a typed reading at it — any size, any nesting, every union alternative —
+  `roundtrip` (C01, C03): in an environment whose dispatch programs, class table (T1) and unstructure
+  table (T2) pass their kernel-evaluated checks, for every annotation in the checked universe and
+  every JSON value with a typed reading at it — any size, any nesting, every union alternative —
 
       structure(j, T) = ok v'      (succeeds)
       v' is a typed reading of j   (C03: well-typed; at a union an alternative j is valid for)
@@ -12,7 +12,9 @@
                                     non-null value disappears or changes)
 
   `constructor_path` (C02): the object built from the values of `j` with the intended alternatives
-  *is* a typed reading `v` of `j`; it unstructures to a `j'` with `nrel T j j'`.
+  *is* a typed reading `v` of `j`; it unstructures to a `j'` with `nrel T j j'`; `j'` is again valid
+  (`v` reads it), so structuring `j'` succeeds with a typed reading `v''`, and serialising `v''`
+  gives `j''` with `nrel T j' j''`.
 -/
 import LspVerif.Props.Total
 import LspVerif.Props.Unstruct
@@ -27,11 +29,18 @@ theorem roundtrip (H : List PyTy) (hP : progsOK E bad H = true) (hC : clsesOK E 
       (∃ j' m, unstruct E m (some ty) v' = .ok j' ∧ ∃ k, nrel E k ty j j' = true) ∧
       (∃ j' m, unstruct E m Option.none v' = .ok j' ∧ ∃ k, nrel E k ty j j' = true) := by
   obtain ⟨v', m, hm, k', hk'⟩ := T1 E bad H hP hC ty k hty j v n h
-  exact ⟨v', ⟨m, hm⟩, ⟨k', hk'⟩, (T2 E bad hU hk').1, (T2 E bad hU hk').2⟩
+  obtain ⟨⟨j1, m1, h1, hn1, _⟩, ⟨j2, m2, h2, hn2, _⟩⟩ := T2 E bad hU hk'
+  exact ⟨v', ⟨m, hm⟩, ⟨k', hk'⟩, ⟨j1, m1, h1, hn1⟩, ⟨j2, m2, h2, hn2⟩⟩
 
-theorem constructor_path (hU : clsesOKU E = true) (ty : PyTy) (j : Json) (v : PyVal) (n : Nat)
+theorem constructor_path (H : List PyTy) (hP : progsOK E bad H = true) (hC : clsesOK E bad H = true) (hU : clsesOKU E = true)
+    (ty : PyTy) (k : Nat) (hty : lightOK E bad H k ty = true) (j : Json) (v : PyVal) (n : Nat)
     (h : rep E bad n ty v j = true) :
-    ∃ j' m, unstruct E m Option.none v = .ok j' ∧ ∃ k, nrel E k ty j j' = true :=
-  (T2 E bad hU h).2
+    ∃ j' m, unstruct E m Option.none v = .ok j' ∧ (∃ k, nrel E k ty j j' = true) ∧
+      ∃ v'' m', structTy E m' ty j' = .ok v'' ∧ (∃ k, rep E bad k ty v'' j' = true) ∧
+        ∃ j'' m'', unstruct E m'' Option.none v'' = .ok j'' ∧ ∃ k, nrel E k ty j' j'' = true := by
+  obtain ⟨_, ⟨j', m, hm, hn, ⟨r, hr⟩⟩⟩ := T2 E bad hU h
+  obtain ⟨v'', m', hm', k', hk'⟩ := T1 E bad H hP hC ty k hty j' v r hr
+  obtain ⟨_, ⟨j'', m'', hm'', hn'', _⟩⟩ := T2 E bad hU hk'
+  exact ⟨j', m, hm, hn, v'', m', hm', ⟨k', hk'⟩, j'', m'', hm'', hn''⟩
 
 end LspVerif
